@@ -3,6 +3,7 @@ package eval
 import (
 	"fmt"
 	"slices"
+	"strings"
 	"ti/base"
 	"ti/context"
 	"ti/parser"
@@ -103,6 +104,36 @@ func (c *Class) getNextFrame(ctx context.Context) string {
 	return ctx.GetClass()
 }
 
+// findEnclosingDefinition resolves an unqualified superclass name the way
+// Ruby does: the namespaces enclosing the class body are searched from the
+// innermost outwards before the top level.
+func (c *Class) findEnclosingDefinition(
+	frame string,
+	parentFrame string,
+	parentNamespace string,
+	parentClass string,
+) (string, bool) {
+
+	if parentFrame != "" || parentNamespace != "" {
+		return "", false
+	}
+
+	for frame != "" {
+		if base.IsClassDefinedIn(frame, parentClass) {
+			return frame, true
+		}
+
+		idx := strings.LastIndex(frame, "::")
+		if idx < 0 {
+			break
+		}
+
+		frame = frame[:idx]
+	}
+
+	return "", false
+}
+
 func (c *Class) Evaluation(
 	e *Evaluator,
 	p *parser.Parser,
@@ -136,7 +167,9 @@ func (c *Class) Evaluation(
 
 	// include ObjectClass
 	if ctx.IsDefineRound() {
-		classNode := base.ClassNode{Frame: ctx.GetFrame(), Class: class}
+		// the class lives in nextFrame (its enclosing namespace), which is the
+		// frame every ancestor lookup for it uses
+		classNode := base.ClassNode{Frame: nextFrame, Class: class}
 		objectClassNode := base.ClassNode{Frame: "Builtin", Class: ""}
 
 		base.ClassInheritanceMap[classNode] =
@@ -164,9 +197,18 @@ func (c *Class) Evaluation(
 		parentFrame, parentNamespace, parentClass :=
 			base.SeparateNameSpaces(nextT.ToString())
 
-		if slices.Contains(base.BuiltinClasses, parentClass) && parentNamespace == "" {
+		enclosingFrame, isEnclosed :=
+			c.findEnclosingDefinition(ctx.GetFrame(), parentFrame, parentNamespace, parentClass)
+
+		switch {
+		// class Dog < Animal inside module M, where M::Animal exists
+		case isEnclosed:
+			parentFrame = enclosingFrame
+
+		case slices.Contains(base.BuiltinClasses, parentClass) && parentNamespace == "":
 			parentFrame = "Builtin"
-		} else {
+
+		default:
 			parentFrame = base.CalculateFrame(parentFrame, parentNamespace)
 		}
 
